@@ -75,7 +75,8 @@ Definition step (chk : bool) (N : cnf) (A : list lit) (limit : Z) (s : state) (e
     | ELearn c true =>
         match pending s, sols s with
         | true, m :: _ =>
-            if zlist_eqb c (map Z.opp m) && (Z.of_nat (length (sols s)) <? limit)
+            (* pure literals are only asserted when solution_limit <= 1, where no blocking clause is ever built *)
+            if zlist_eqb c (map Z.opp m) && (Z.of_nat (length (sols s)) <? limit) && is_nil (pures s)
             then Some (mkState (inited s) (pures s) ((c, true) :: db s) (sols s) false None) else None
         | _, _ => None
         end
